@@ -57,6 +57,21 @@ def lenAfter (guard : Option Nat) : Nat → Option Nat
       | .ok _ => some (len + 1)
       | .limitExceeded => none
 
+/-- a de-duplicating table function (`makeStringValue`, `addType`, …) called for a value that is
+already in the table at index `found` (`none`: it is not). `guardFirst` = the limit test comes
+before the lookup. The shape the code must have is `guardFirst = false`: lookup, then guarded append. -/
+def intern (guardFirst : Bool) (guard : Option Nat) (len : Nat) (found : Option Nat) : Outcome :=
+  if guardFirst then
+    match appendAt guard len with
+    | .limitExceeded => .limitExceeded
+    | .ok i => match found with
+      | some j => .ok j
+      | none => .ok i
+  else
+    match found with
+    | some j => .ok j
+    | none => appendAt guard len
+
 /-- a check of a whole count at once (`if len(cases) > maxC`) -/
 def checkCount (guard : Option Nat) (count : Nat) : Outcome :=
   match guard with
